@@ -229,13 +229,27 @@ def operand(rng):
 
 
 def near(rng, a):
+    """an operand related to `a` (see _near), always a finite decimal128 literal"""
+    for _ in range(4):
+        b = _near(rng, a)
+        try:
+            B = Decimal(b)
+        except Exception:
+            continue
+        t = B.as_tuple()
+        if B.is_finite() and len(t.digits) <= 34 and -6176 <= t.exponent <= 6111:
+            return b
+    return operand(rng)
+
+
+def _near(rng, a):
     """an operand related to `a`: equal with other scale, neighbour, negation, 34+ orders apart"""
     A = dec(a)
     k = rng.random()
     if A == 0:
         return operand(rng)
     if k < 0.2:
-        return str(-A)
+        return str(A.copy_negate())
     if k < 0.4:
         # same value, more trailing zeros when they fit
         t = A.as_tuple()
